@@ -609,6 +609,35 @@ Proof.
     try reflexivity. exfalso. exact (Hr u1 eq_refl).
 Qed.
 
+(* the same three facts for the read-modify-write of one entry *)
+Lemma with_dir_entry_mut_ok_inv : forall id f s s' u,
+  with_dir_entry_mut id f s = (s', Ok u) -> with_dir_entry_mut_inner id f s = (s', Ok u).
+Proof.
+  intros id f s s' u H. unfold with_dir_entry_mut in H.
+  destruct (with_dir_entry_mut_inner id f s) as [s1 [u1| | |]]; try discriminate H. exact H.
+Qed.
+
+Lemma with_dir_entry_mut_ok : forall id f s s' u,
+  with_dir_entry_mut_inner id f s = (s', Ok u) -> with_dir_entry_mut id f s = (s', Ok u).
+Proof. intros id f s s' u H. unfold with_dir_entry_mut. rewrite H. reflexivity. Qed.
+
+Lemma with_dir_entry_mut_failed_dirs : forall id f s s' r,
+  with_dir_entry_mut id f s = (s', r) -> (forall u, r <> Ok u) -> dirs s' = dirs s.
+Proof.
+  intros id f s s' r H Hr. unfold with_dir_entry_mut in H.
+  destruct (with_dir_entry_mut_inner id f s) as [s1 [u1| | |]]; injection H as <- <-;
+    try reflexivity. exfalso. exact (Hr u1 eq_refl).
+Qed.
+
+(* the wrapper in terms of the inner run, in every outcome *)
+Lemma with_dir_entry_mut_unfold : forall id f s,
+  with_dir_entry_mut id f s =
+  match with_dir_entry_mut_inner id f s with
+  | (s', Ok u) => (s', Ok u)
+  | (s', r) => (w_dirs s' (dirs s), r)
+  end.
+Proof. reflexivity. Qed.
+
 Lemma remove_proj : forall parent nm s s' u,
   remove_dir_entry parent nm s = (s', Ok u) ->
   exists p path x e pp pred,
